@@ -153,7 +153,8 @@ Print Assumptions C01td_interpreter_dfs_is_recursive.
 Theorem C01td_interpreter_value_and_axis_order : forall n sl arr e0 pe l r,
   wf_net n -> full_tree n (Node l r) ->
   let res := exec_program n sl arr e0 (program n sl pe (Node l r) (traverse_dfs (Node l r))) (Node l r) in
-  fst res = map (dim n) (out_inds n sl) /  forall e, agree_removed sl e0 e -> snd res (map e (out_inds n sl)) = einsum_spec n sl arr e.
+  fst res = map (dim n) (out_inds n sl) /\
+  forall e, agree_removed sl e0 e -> snd res (map e (out_inds n sl)) = einsum_spec n sl arr e.
 Proof. exact exec_program_dfs_correct. Qed.
 Print Assumptions C01td_interpreter_value_and_axis_order.
 
